@@ -64,6 +64,10 @@ def lean_type(t) -> str:
         return "PyT.Key"
     if t == "bytes":
         return "Bytes"
+    if isinstance(t, tuple) and t[0] == "var":  # a type variable of the entry (values the code only passes around)
+        return t[1]
+    if isinstance(t, tuple) and t[0] == "dict":  # dict[str, V] in insertion order
+        return f"(List (Text × {lean_type(t[2])}))"
     if t == "millis":  # a float known to hold a whole number of milliseconds, carried as that number (PyT.Millis)
         return "PyT.Millis"
     if isinstance(t, tuple) and t[0] == "raw":  # a parameter that stands for a third-party function (calendar, str.isalpha, …)
@@ -161,6 +165,8 @@ class Fn:
     # -- expressions ----------------------------------------------------------------------
     def expr(self, e, env, pre: list[str]):
         """returns (lean code, type); monadic sub-computations are hoisted into `pre` as `let x ← …`."""
+        if isinstance(e, ast.Subscript) and ast.unparse(e) in self.spec.get("attrs", {}):
+            return self.spec["attrs"][ast.unparse(e)]
         if isinstance(e, ast.Constant):
             v = e.value
             if isinstance(v, bool):
@@ -313,7 +319,14 @@ class Fn:
                 and isinstance(e.generators[0].target, ast.Name):
             g = e.generators[0]
             sub: list[str] = []
-            it, itt = self.expr(g.iter, env, pre)
+            if isinstance(g.iter, ast.Call) and isinstance(g.iter.func, ast.Name) and g.iter.func.id == "range" \
+                    and len(g.iter.args) == 1:
+                rc, rt = self.expr(g.iter.args[0], env, pre)
+                if rt != "int":
+                    raise Unsupported("range() of non-int")
+                it, itt = f"(PyT.range {rc})", ("list", "int")
+            else:
+                it, itt = self.expr(g.iter, env, pre)
             if itt == "str":
                 lst, et = f"(PyT.strIter {it})", "str"
             elif isinstance(itt, tuple) and itt[0] == "list":
@@ -324,7 +337,12 @@ class Fn:
             env2[g.target.id] = et
             body, bt2 = self.expr(e.elt, env2, sub)
             if sub:
-                raise Unsupported("comprehension element that can raise")
+                # an element that can raise: the list is built left to right and the first exception ends it
+                v = self.fresh()
+                pre.append(f"let {v} ← ({lst}).mapM (fun ({lname(g.target.id)} : {lean_type(et)}) => (do")
+                pre.extend(self.ind(self.ind(sub + [f"pure {body}"])))
+                pre.append(f"  : PyM {lean_type(bt2)}))")
+                return v, ("list", bt2)
             return f"(({lst}).map (fun ({lname(g.target.id)} : {lean_type(et)}) => {body}))", ("list", bt2)
         if isinstance(e, ast.Subscript):
             base, bt = self.expr(e.value, env, pre)
@@ -334,6 +352,13 @@ class Fn:
                 lo = "none" if e.slice.lower is None else f"(some {self.expr(e.slice.lower, env, pre)[0]})"
                 hi = "none" if e.slice.upper is None else f"(some {self.expr(e.slice.upper, env, pre)[0]})"
                 return f"(pySlice {base} {lo} {hi})", bt
+            if isinstance(bt, tuple) and bt[0] == "dict":
+                k, kt = self.expr(e.slice, env, pre)
+                if kt != "str":
+                    raise Unsupported("dict key of type " + str(kt))
+                v = self.fresh()
+                pre.append(f"let {v} ← PyT.dictGet {base} {k}")
+                return v, bt[2]
             if isinstance(bt, tuple) and bt[0] == "tuple":
                 # t[k] on a fixed-length tuple with a literal index: the projection
                 if not (isinstance(e.slice, ast.Constant) and isinstance(e.slice.value, int) and not isinstance(e.slice.value, bool)
@@ -369,6 +394,9 @@ class Fn:
         raise Unsupported(f"str() of {t}")
 
     def compare(self, op, a, at, b, bt) -> str:
+        if isinstance(op, (ast.In, ast.NotIn)) and isinstance(bt, tuple) and bt[0] == "dict" and at == "str":
+            c = f"(PyT.dictContains {b} {a})"
+            return c if isinstance(op, ast.In) else f"(!{c})"
         if isinstance(op, (ast.Is, ast.IsNot)):
             if bt == "none" and isinstance(at, tuple) and at[0] == "opt":
                 return f"({a}).isNone" if isinstance(op, ast.Is) else f"({a}).isSome"
@@ -450,8 +478,10 @@ class Fn:
             lean_fn, argtypes, rett, monadic, *keep = externs[src]
             # optional 5th component: the positions of the Python arguments that are passed on (an argument that only
             # stands for "the value the third-party function is about", e.g. the datetime, is dropped)
-            args = [self.expr(a, env, pre)[0] for i, a in enumerate(list(e.args) + [k.value for k in e.keywords])
-                    if not keep or i in keep[0]]
+            # `*xs` passes the list xs; `**kwargs` of a wrapper is taken to be empty (named in the entry's `assume`)
+            actual = [a.value if isinstance(a, ast.Starred) else a for a in e.args] + \
+                [k.value for k in e.keywords if k.arg is not None]
+            args = [self.expr(a, env, pre)[0] for i, a in enumerate(actual) if not keep or i in keep[0]]
             code = f"({lean_fn} " + " ".join(args) + ")" if args else lean_fn
             if monadic:
                 v = self.fresh()
@@ -665,6 +695,17 @@ class Fn:
                 target = s.target
                 code, t = self.binop(ast.BinOp(left=s.target, op=s.op, right=s.value), env, pre)
             env2 = dict(env)
+            if isinstance(target, ast.Subscript) and ast.unparse(target.value) in self.spec.get("attrs", {}) \
+                    and isinstance(self.spec["attrs"][ast.unparse(target.value)][1], tuple) \
+                    and self.spec["attrs"][ast.unparse(target.value)][1][0] == "dict" and isinstance(s, ast.Assign):
+                # d[k] = v on a dict the entry carries as a state variable
+                dvar, dt = self.spec["attrs"][ast.unparse(target.value)]
+                if dvar not in self.spec.get("state", ()):
+                    raise Unsupported("assignment into a dict that is not a state variable of the entry")
+                k, kt = self.expr(target.slice, env, pre)
+                if kt != "str" or t != dt[2]:
+                    raise Unsupported("dict item of the wrong type")
+                return pre + [f"let {dvar} : {lean_type(dt)} := PyT.dictSet {dvar} {k} {code}"] + cont(env2)
             if isinstance(target, ast.Subscript) and isinstance(target.value, ast.Name) and env.get(target.value.id) == "bytes" \
                     and not isinstance(target.slice, ast.Slice):
                 # buf[i] = x / buf[i] op= x on a bytearray: the updated buffer (IndexError / ValueError as bytearray raises them)
@@ -691,6 +732,10 @@ class Fn:
                 code, t = "()", "none"
             else:
                 code, t = self.expr(s.value, env, pre)
+            state = self.spec.get("state", ())
+            if state:
+                # the entry's state variables (what the method leaves in `self`) are returned beside the value
+                code = "(" + ", ".join([code] + [lname(v) for v in state]) + ")"
             if loop is not None:
                 return pre + [loop["on_return"](code, env)]
             return pre + [f"pure {code}"]
@@ -983,7 +1028,10 @@ class Fn:
             env[n] = t
             params.append(f"({lname(n)} : {lean_type(t)})")
         body = self.block(fdef.body, env, None)
-        head = f"def {self.name} " + " ".join(params) + f" : PyM {lean_type(self.ret)} := do"
+        state = self.spec.get("state", ())
+        rty = lean_type(("tuple", [self.ret] + [env[v] for v in state])) if state else lean_type(self.ret)
+        tv = "".join("{" + v + " : Type} " for v in self.spec.get("typevars", ()))
+        head = f"def {self.name} " + tv + " ".join(params) + f" : PyM {rty} := do"
         return "\n\n".join(self.aux + [head + "\n" + "\n".join(self.ind(body))])
 
 
@@ -1056,6 +1104,17 @@ TARGETS = [
      "attrs": {"self.num_cols": ("table_cols", "int")},
      "until": ("for row in range(self.num_rows):", []),
      "assume": "only the argument checks (everything before the loop over the rows) are translated"},
+    {"group": "Cache", "module": "numbers_parser.numbers_cache", "qualname": "cache.cache_decorator.inner_multi_args",
+     "lean": "cache_inner_multi_args", "typevars": ["β"],
+     "params": [("f", ("raw", "List Int → β")), ("num_args", "int"), ("store", ("dict", "str", ("var", "β"))),
+                ("args", ("list", "int"))],
+     "ret": ("var", "β"), "state": ["store"],
+     "skip": ["method = func.__name__"],
+     "attrs": {"self._cache[method]": ("store", ("dict", "str", ("var", "β")))},
+     "externs": {"func": ("f", [], ("var", "β"), False, [1])},
+     "assume": "self._cache[func.__name__] is the state variable store (a dict in insertion order); the decorated method is the "
+               "parameter f of its positional arguments (ints), called without keyword arguments; num_args is the decorator's "
+               "closure variable"},
     {"group": "NumFmt", "module": "numbers_parser.cell", "qualname": "_format_fraction_parts_to", "lean": "format_fraction_parts_to",
      "params": [("whole", "int"), ("numerator", "int"), ("denominator", "int")], "ret": "str"},
     {"group": "NumFmt", "module": "numbers_parser.cell", "qualname": "_invert_bit_str", "lean": "invert_bit_str",
@@ -1151,7 +1210,7 @@ def find_def(module: str, qualname: str) -> ast.FunctionDef:
     return node
 
 
-GROUP_IMPORTS = {"A1": ["NumbersModel.Model.A1"], "Items": [], "NumFmt": [], "Addr": [], "DateFmt": [], "Duration": [], "Dec128": [], "Merge": [], "Edit": []}
+GROUP_IMPORTS = {"A1": ["NumbersModel.Model.A1"], "Items": [], "NumFmt": [], "Addr": [], "DateFmt": [], "Duration": [], "Dec128": [], "Merge": [], "Edit": [], "Cache": []}
 
 
 def generate(group: str) -> tuple[str, dict]:
